@@ -254,8 +254,8 @@ Definition de_biguint (c : cfg) : M biguint :=
   if k =? 1 then rd x <- de_u64; ret (Small x)
   else if k =? 2 then
     rd n <- de_usize;
-    if c_validate c && (n =? 0) then fail EDeser
-    else rd _ <- alloc c n 8; rd v <- de_list de_u64 n; ret (Large v)
+    rd _ <- alloc c n 8; rd v <- de_list de_u64 n;
+    if c_validate c && (len_N v =? 0) then fail EDeser else ret (Large v)
   else fail EDeser.
 
 Definition biguint_is_zero (b : biguint) : bool :=
